@@ -37,35 +37,56 @@ def _run_group(args):
         out["mism"].append({"clause": "build", "T": T, "format": fname, "actual": ["exc", type(e).__name__, str(e)[:200]]})
         return out
     plain = get_opt(T[3], "mixin") == "plain"
+    # a codec object may be given a default_dialect: one that customises nothing the subject contains (a strategy for an unrelated
+    # private type, no option set) is layered OVER the format's own dialect and must change nothing -- same documents expected
+    variants = [None]
+    if plain:
+        from mashumaro.dialect import Dialect
+        from mashumaro.helper import pass_through
+
+        class _Unrelated:
+            pass
+
+        class Neutral(Dialect):
+            serialization_strategy = {_Unrelated: pass_through}
+
+        class Empty(Dialect):
+            pass
+        variants = [None, Neutral, Empty]
     try:
-        enc = dec = None
-        for rec in recs:
-            _, _f, _T, v, doc_exp = rec
-            out["n"] += 1
-            x = concretize_value(v, subj.reg)
-            try:
-                if plain:
-                    enc = enc or Enc(subj.ann)
-                    dec = dec or Dec(subj.ann)
-                    data = enc.encode(x)
-                else:
-                    data = getattr(x, to_m)()
-                parsed = abstract_value(parse(data), subj.reg)
-            except Exception as e:  # noqa: BLE001
-                out["mism"].append({"clause": "format-encode-raises", "T": T, "format": fname, "input": v, "expected": doc_exp,
-                                    "actual": ["exc", type(e).__name__, str(e)[:200]]})
-                continue
-            # "yields exactly the basic-form serialization": Python equality of documents (mapping order is not part of it;
-            # PyYAML sorts keys on dump)
-            if not wire_match(eqform(canon(doc_exp)), eqform(parsed)):
-                out["mism"].append({"clause": "format-document", "T": T, "format": fname, "input": v, "expected": doc_exp, "actual": parsed})
-            try:
-                y = dec.decode(data) if plain else getattr(subj.ann, from_m)(data)
-                back = ["ok", abstract_value(y, subj.reg)]
-            except Exception as e:  # noqa: BLE001
-                back = ["exc", type(e).__name__, str(e)[:200]]
-            if back[0] != "ok" or not terms_pyeq(back[1], v):
-                out["mism"].append({"clause": "format-roundtrip", "T": T, "format": fname, "input": v, "expected": ["ok", v], "actual": back})
+        for dd in variants:
+            enc = dec = None
+            ddkw = {} if dd is None else {"default_dialect": dd}
+            ddname = getattr(dd, "__name__", None)
+            for rec in recs:
+                _, _f, _T, v, doc_exp = rec
+                out["n"] += 1
+                x = concretize_value(v, subj.reg)
+                try:
+                    if plain:
+                        enc = enc or Enc(subj.ann, **ddkw)
+                        dec = dec or Dec(subj.ann, **ddkw)
+                        data = enc.encode(x)
+                    else:
+                        data = getattr(x, to_m)()
+                    parsed = abstract_value(parse(data), subj.reg)
+                except Exception as e:  # noqa: BLE001
+                    out["mism"].append({"clause": "format-encode-raises", "T": T, "format": fname, "input": v, "expected": doc_exp,
+                                        "default_dialect": ddname, "actual": ["exc", type(e).__name__, str(e)[:200]]})
+                    continue
+                # "yields exactly the basic-form serialization": Python equality of documents (mapping order is not part of it;
+                # PyYAML sorts keys on dump)
+                if not wire_match(eqform(canon(doc_exp)), eqform(parsed)):
+                    out["mism"].append({"clause": "format-document", "T": T, "format": fname, "input": v, "expected": doc_exp, "actual": parsed,
+                                        "default_dialect": ddname})
+                try:
+                    y = dec.decode(data) if plain else getattr(subj.ann, from_m)(data)
+                    back = ["ok", abstract_value(y, subj.reg)]
+                except Exception as e:  # noqa: BLE001
+                    back = ["exc", type(e).__name__, str(e)[:200]]
+                if back[0] != "ok" or not terms_pyeq(back[1], v):
+                    out["mism"].append({"clause": "format-roundtrip", "T": T, "format": fname, "input": v, "expected": ["ok", v], "actual": back,
+                                        "default_dialect": ddname})
     finally:
         subj.close()
     return out
